@@ -245,7 +245,8 @@ def new_uuid(rng):
 
 
 PROP_POOL_VALID = [["prop1", "plain"], ["count_it", "int"], ["some_ref", "ref"], ["more_refs", "reflist"],
-                   ["tags", "listplain"], ["x_extra", "plain"], ["x_aaa", "int"], ["name2", "plain"]]
+                   ["tags", "listplain"], ["x_extra", "plain"], ["x_aaa", "int"], ["name2", "plain"],
+                   ["xref_count", "int"], ["xa1", "plain"]]
 PROP_POOL_BAD_NAME = [["q", "plain"], ["aB", "plain"], ["a b", "plain"], ["a-b", "plain"], ["ab", "int"],
                       ["Abc", "plain"], ["1abc", "plain"], ["_abc", "plain"], ["abc\n", "plain"], ["p" * 251, "plain"],
                       ["abé", "plain"]]
@@ -661,6 +662,12 @@ def oracle_guarantee(case, res):
                 or r.get("roundtrip_same_class") is not True:
             viol("registered type %s does not round-trip (== %s, text byte for byte %s, values kept %s, same class %s)"
                  % (tag, r.get("roundtrip_equal"), r.get("roundtrip_text_equal"), r.get("values_kept"), r.get("roundtrip_same_class")), r)
+        cx = r.get("custom_extra")
+        if cx is not None:
+            if cx.get("construct") != "ok" or cx.get("parse") != "ok" or cx.get("given_kept_construct") is not True \
+                    or cx.get("given_kept_parse") is not True or cx.get("equal") is not True or cx.get("text_equal") is not True:
+                viol("registered type %s with allow_custom=True and an undeclared property: constructing and parsing the same "
+                     "data must give the same object with every given property in it: %s" % (tag, cx), r)
         ee = r.get("extra_extensions")
         if ee is not None:
             if ee.get("parse") != "ok" or ee.get("kept") is not True or ee.get("extname_present") is not True \
@@ -714,7 +721,7 @@ USER_KINDS = [
     {"k": "list", "of": {"k": "string"}}, {"k": "list", "of": {"k": "int", "min": 1, "max": None}},
     {"k": "list", "of": {"k": "enum", "allowed": ["p", "q"]}},
 ]
-USER_NAMES = ["prop1", "name2", "count_it", "tags", "flag", "when_seen", "x_zeta", "x_alpha", "x_mid", "x_b", "x_alpha2",
+USER_NAMES = ["prop1", "name2", "count_it", "tags", "flag", "when_seen", "x_zeta", "x_alpha", "x_mid", "x_b", "x_alpha2", "xref_count", "xa1", "xxx",
               "xylo", "description", "value"]
 
 
@@ -870,6 +877,56 @@ def inherit_term(o, conf_range):
         ou(o.get("extname")))
 
 
+def validation_class(ob):
+    """What a registration's outcome says about the VALIDATION of the request (the duplicate test comes after it)."""
+    return "passes-validation" if ob in ("ok", "exc:DuplicateRegistrationError") else ob
+
+
+def order_candidates(good, limit):
+    """Registrations (without extension_name=, whose side registration comes before the property check) of a name that
+    an earlier operation of the same history already used under another version or kind."""
+    out = []
+    for c, r in good:
+        prior = []
+        for i, (o, x) in enumerate(zip(c["ops"], r)):
+            if o["op"] != "reg":
+                continue
+            if not o.get("extname") and any(p["name"] == o["name"] and (p["ver"] != o["ver"] or p["kind"] != o["kind"]) for p in prior):
+                out.append((c, i, o, x))
+            prior.append(o)
+    return out[:limit]
+
+
+def oracle_order(cands):
+    """Whether a request passes validation does not depend on what was registered before: the same single
+    registration in a fresh interpreter must pass / fail validation alike."""
+    out = []
+    if not cands:
+        return out
+    alone = run_histories([{"k": "history", "ops": [o]} for _, _, o, _ in cands])
+    for (c, i, o, x), a in zip(cands, alone):
+        if not isinstance(a, list):
+            continue
+        if validation_class(x) != validation_class(a[0]):
+            v = Violation("registration of %r as %s %s: %s after the earlier operations of the history, %s alone in a fresh "
+                          "interpreter" % (o["name"], o["ver"], o["kind"], x, a[0]),
+                          {"kind": "order", "case": {"ops": c["ops"][:i + 1]}, "at": i, "in_history": x, "alone": a[0]})
+            out.append(v)
+    return out
+
+
+def oracle_dump(o, d):
+    """Every declared property is in the class table the decorator built (or among the toplevel properties of a
+    toplevel-property-extension), and nothing undeclared beyond the standard properties of the kind."""
+    have = {sl["name"] for sl in d["slots"]} | {sl["name"] for sl in d.get("toplevel") or []}
+    missing = sorted({p[0] for p in o["props"]} - have)
+    if missing:
+        return [Violation("declared propert%s %s of %s %s %r missing from the registered class (its table has %s)"
+                          % ("y" if len(missing) == 1 else "ies", missing, o["ver"], o["kind"], o["name"], sorted(have)),
+                          {"kind": "dump", "case": {"regs": [o]}, "observed": {"slots": sorted(have)}})]
+    return []
+
+
 def check_inherit(run, n_cases, model_ok):
     """The class table each decorator builds (live class, dumped with the schema translator's functions) against the
     builder model Model/RegistryBuilder.v."""
@@ -891,6 +948,7 @@ def check_inherit(run, n_cases, model_ok):
                 run.broken.append(Broken("correspondence", "class of a custom type could not be dumped", {"reg": o, "abort": x["abort"]}))
             else:
                 d = x["cls"]
+                run.violations += oracle_dump(o, d)
                 if d["has_own_constraints"]:
                     run.broken.append(Broken("correspondence", "custom class has constraints of its own", {"reg": o}))
                 pairs.append((o, render_info(d), d))
@@ -1282,6 +1340,9 @@ def check(run):
                 stats["lookups"] += 1
                 stats["lookup_cls"] += x.startswith("cls:")
         run.violations += oracle_history(c, r, builtin)
+    oc = order_candidates(good, 400 if thorough else 60)
+    run.coverage["order_independence_checked"] = len(oc)
+    run.violations += oracle_order(oc)
     run.coverage["history_distribution"] = stats
     if good:
         run.sample({"history": good[0][0]["ops"][:6], "impl": good[0][1][:6]})
@@ -1390,6 +1451,25 @@ def replay(payload):
         res = run_histories([case])[0]
         print("replay guarantee case: %s" % json.dumps(res)[:1500])
         vs = oracle_guarantee(case, res)
+    elif kind == "order":
+        case = dict(r["case"], k="history")
+        obs = run_histories([case])[0]
+        i = len(case["ops"]) - 1
+        print("replay: the history up to the registration -> %s" % (obs if not isinstance(obs, list) else obs[i]))
+        vs = oracle_order([(case, i, case["ops"][i], obs[i])]) if isinstance(obs, list) else [Violation("did not run", r)]
+    elif kind == "dump":
+        case = dict(r["case"], k="dump")
+        res = common.run_impl("c19_dump", [case], procs=1)[0]
+        print("replay class dump: %s" % json.dumps(res)[:1200])
+        vs = []
+        if isinstance(res, list):
+            for o, x in zip(case["regs"], res):
+                if x.get("registered") != "ok":
+                    vs.append(Violation("valid registration refused: %s" % x.get("registered"), r))
+                elif "cls" in x:
+                    vs += oracle_dump(o, x["cls"])
+        else:
+            vs.append(Violation("did not run: %s" % res, r))
     elif kind == "marking_pairs":
         case = dict(r["case"], k="marking_pairs")
         res = run_histories([case])[0]
